@@ -44,9 +44,80 @@ async fn run_point(ping: u64, pong: u64, pattern: String, port: u16, window_s: u
     quickack(&stream);
     let (rd, mut wr) = stream.into_split();
     let mut rd = BufReader::new(rd);
-    let nick = "kal";
-    wr.write_all(format!("NICK {}\r\nUSER u1 0 * :Keep Alive\r\n", nick).as_bytes()).await.ok();
+    let mut nick = "kal";
     let mut line = String::new();
+    let mut pre_ping = false;
+    let mut _winner = None;
+    if pattern == "retry" {
+        // the client first loses a registration-time nickname collision (claims the nick, somebody else registers it,
+        // 433 at its USER), stays unregistered for longer than ping_timeout - the keep-alive clock must not run yet -
+        // and then registers under another nickname; from then on it answers every PING at once
+        wr.write_all(b"NICK kal\r\n").await.ok();
+        tokio::time::sleep(Duration::from_millis(150)).await;
+        if let Ok(w) = TcpStream::connect(("127.0.0.1", port)).await {
+            let (wrd, mut wwr) = w.into_split();
+            let mut wrd = BufReader::new(wrd);
+            wwr.write_all(b"NICK kal\r\nUSER w 0 * :Winner\r\n").await.ok();
+            loop {
+                line.clear();
+                match tokio::time::timeout(Duration::from_secs(5), wrd.read_line(&mut line)).await {
+                    Ok(Ok(n)) if n > 0 => {
+                        if tokenize(line.trim_end()).map(|t| t.command == "221").unwrap_or(false) {
+                            break;
+                        }
+                    }
+                    _ => return json!({"ping": ping, "pong": pong, "pattern": pattern, "error": "winner not welcomed"}),
+                }
+            }
+            // the winner keeps answering its own PINGs in the background
+            _winner = Some(tokio::spawn(async move {
+                let mut l = String::new();
+                loop {
+                    l.clear();
+                    match wrd.read_line(&mut l).await {
+                        Ok(n) if n > 0 => {
+                            if l.to_ascii_uppercase().starts_with("PING") {
+                                let _ = wwr.write_all(b"PONG :w\r\n").await;
+                            }
+                        }
+                        _ => break,
+                    }
+                }
+            }));
+        }
+        wr.write_all(b"USER u1 0 * :Keep Alive\r\n").await.ok();
+        let until = Instant::now() + Duration::from_millis(ping * 1000 + 600);
+        let mut got433 = false;
+        loop {
+            let left = until.saturating_duration_since(Instant::now());
+            if left.is_zero() {
+                break;
+            }
+            line.clear();
+            match tokio::time::timeout(left, rd.read_line(&mut line)).await {
+                Ok(Ok(n)) if n > 0 => {
+                    if let Some(t) = tokenize(line.trim_end()) {
+                        if t.command == "433" {
+                            got433 = true;
+                        }
+                        if t.command.to_ascii_uppercase() == "PING" {
+                            pre_ping = true;
+                            wr.write_all(b"PONG :early\r\n").await.ok();
+                        }
+                    }
+                }
+                Ok(_) => return json!({"ping": ping, "pong": pong, "pattern": pattern, "error": "closed while unregistered"}),
+                Err(_) => break,
+            }
+        }
+        if !got433 {
+            return json!({"ping": ping, "pong": pong, "pattern": pattern, "error": "no 433 for the losing registration"});
+        }
+        nick = "kal2";
+        wr.write_all(b"NICK kal2\r\n").await.ok();
+    } else {
+        wr.write_all(format!("NICK {}\r\nUSER u1 0 * :Keep Alive\r\n", nick).as_bytes()).await.ok();
+    }
     let mut t0 = Instant::now();
     // wait for the end of the welcome burst (221)
     loop {
@@ -127,7 +198,7 @@ async fn run_point(ping: u64, pong: u64, pattern: String, port: u16, window_s: u
     handle.abort();
     json!({"ping": ping, "pong": pong, "pattern": pattern, "window": window_s * 1000, "pings": pings,
            "dropped_at": dropped_at, "error_at": error_at, "pong_token_ok": pong_token_ok,
-           "user_present_after": present, "events": events})
+           "user_present_after": present, "pre_ping": pre_ping, "events": events})
 }
 
 pub fn main(args: &[String]) -> i32 {
@@ -143,9 +214,9 @@ pub fn main(args: &[String]) -> i32 {
         vec![(1, 1), (1, 2), (2, 1), (1, 3), (2, 2)]
     };
     let patterns: Vec<&str> = if grid == "thorough" {
-        vec!["always", "never", "stops1", "stops2", "late1"]
+        vec!["always", "never", "stops1", "stops2", "late1", "retry"]
     } else {
-        vec!["always", "never", "stops1", "late1"]
+        vec!["always", "never", "stops1", "late1", "retry"]
     };
     let rt = runtime(8);
     let results = rt.block_on(async {
